@@ -30,7 +30,18 @@ def r1_dispatch(ctx, repo):
         raise AnalysisError("Evaluator.evaluate_parallel not found")
     C = "Evaluator.evaluate_parallel"
     selfn, batch = func_params(fn)[:2]
-    outer = [c for c in calls_in(fn) if isinstance(c.func, ast.Call) and access_path(c.func.func) in ("Parallel", "joblib.Parallel")]
+    # the dispatch call as a term: locals holding the pool (`workers = Parallel(..)`) or the task factory
+    # (`run = delayed(self.job.evaluate)`) are looked through
+    from ..terms import Terms as _T
+    TT = _T(fn)
+    outer = []
+    for s_ in stmts_of(fn):
+        if isinstance(s_, (ast.If, ast.For, ast.While, ast.Try, ast.With)):
+            continue
+        for c in calls_in(s_):
+            cx = TT.expand(c, at=s_)
+            if isinstance(cx, ast.Call) and isinstance(cx.func, ast.Call) and access_path(cx.func.func) in ("Parallel", "joblib.Parallel"):
+                outer.append(cx)
     if len(outer) != 1:
         ctx.inconclusive("R1", C, where(mod, fn), "joblib Parallel(...)(generator) call not found")
         return
@@ -162,6 +173,41 @@ def r2_races(ctx, repo):
                             p = access_path(n) or ""
                             if p.startswith(selfn + "."):
                                 loads.setdefault(p[len(selfn) + 1:], []).append((label, mod, s, withs.get(id(s), ())))
+        # containers of the shared object that the closure changes by a method call AND consults (membership, length,
+        # iteration, element read) in a condition: what a worker decides then depends on what other workers did meanwhile
+        mutated = {}
+        for label, mod, fn, kind in fns:
+            if kind != "shared-self":
+                continue
+            selfn = func_params(fn)[0]
+            for s in stmts_of(fn):
+                if isinstance(s, (ast.If, ast.For, ast.While, ast.Try, ast.With)):
+                    continue
+                for c in calls_in(s):
+                    if isinstance(c.func, ast.Attribute) and c.func.attr in ("add", "discard", "remove", "append", "pop", "clear", "update", "extend", "insert", "setdefault", "popitem"):
+                        p_ = access_path(c.func.value) or ""
+                        if p_.startswith(selfn + ".") and not p_.startswith(selfn + ".problem."):
+                            mutated.setdefault(p_[len(selfn) + 1:], []).append((label, mod, s))
+        for rel, muts in mutated.items():
+            conds = []
+            for label, mod, fn, kind in fns:
+                if kind != "shared-self":
+                    continue
+                selfn = func_params(fn)[0]
+                for s in stmts_of(fn):
+                    tests = [s.test] if isinstance(s, (ast.If, ast.While)) else ([x.test for x in ast.walk(s) if isinstance(x, ast.IfExp)] if not isinstance(s, (ast.For, ast.Try, ast.With)) else [])
+                    for t in tests:
+                        if any(isinstance(n, ast.Attribute) and access_path(n) == selfn + "." + rel for n in ast.walk(t)):
+                            conds.append((label, mod, s, t))
+            withs_ok = False
+            if conds:
+                m, cnd = muts[0], conds[0]
+                ctx.violated("R2", m[0], where(cnd[1], cnd[2]),
+                             "%s changes the shared container self.%s (%s) and %s branches on it (%s): all worker threads share this object, so whether a design is "
+                             "processed depends on what another worker is doing at that moment" % (m[0], rel, text(m[2]).strip()[:60], cnd[0], text(cnd[3])[:80]),
+                             key="shared-container:%s.%s" % (obj, rel), facts={"object": obj, "attribute": rel})
+            else:
+                listed.append("%s.%s: shared container changed by method calls, never consulted in a condition inside the closure" % (obj, rel))
         for rel, sts in stores.items():
             rds = [l for l in loads.get(rel, []) if not any(l[2] is st[2] for st in sts if st[3])]
             only_aug = all(st[3] for st in sts)
